@@ -10,6 +10,7 @@ CONSTANTS MaxLoads, KnownDev,
           PrefixIds,    \* which prefixes of LoadUniverse!Prefixes the histories start from
           Vias,         \* how a document may be delivered: "sdl" (ParseReader / ParseFS), "types" (built in Go, Root.AddTypes)
           TypesOnly,    \* emit only the histories with at least one load delivered as types
+          Buildable,    \* only documents that can be delivered as types take part (deep AddTypes histories: a smaller universe)
           WithIntro     \* also emit, after EVERY load (accepted or refused), the introspection view of the root's schema
 
 VARIABLES st, hist, npre
@@ -32,7 +33,7 @@ Load(doc, via) ==
   /\ st' = r.s
   /\ hist' = Append(hist, [doc |-> doc, via |-> via, ok |-> r.ok, why |-> r.why, off |-> r.off, canon |-> Canon(r.s)]
                             @@ (IF WithIntro /\ Queryable(r.s) THEN [intro |-> Intro(r.s)] ELSE <<>>))
-LNext == \E doc \in LoadDocs, via \in Vias : Load(doc, via)
+LNext == \E doc \in {d \in LoadDocs : Buildable => TypesEligible(d)}, via \in Vias : Load(doc, via)
 LSpec == LInit /\ [][LNext]_lvars
 
 \* C14: a failed load leaves the observable schema unchanged
